@@ -78,4 +78,27 @@ FrameOK(e) == (~e.err /\ ~e.panic) => (e.inok /\ e.polyok /\ e.again)
 \* ---- documented change of basis for the Chebyshev interval [a, b]: u = scalar * x + constant, with
 \* scalar = 2/(b-a), constant = (-a-b)/(b-a); recorded as scalar*(b-a) and constant*(b-a) rounded to 2^-16
 BasisOK(e) == e.sc16 = 2 * 65536 /\ e.ct16 = (0 - e.a - e.b) * 65536
+
+\* ---- plaintext-side tools (utils/bignum): exact integer identities --------------------------------------------------
+\* p(x) for integer coefficients c (c[1] constant) at the integer x: monomial basis / Chebyshev basis on [-1, 1]
+RECURSIVE HornerInt(_, _, _)
+HornerInt(c, x, k) == IF k > Len(c) THEN 0 ELSE c[k] + x * HornerInt(c, x, k + 1)
+RECURSIVE ChebT(_, _)
+ChebT(x, k) == IF k = 0 THEN 1 ELSE IF k = 1 THEN x ELSE 2 * x * ChebT(x, k - 1) - ChebT(x, k - 2)
+RECURSIVE ChebInt(_, _, _)
+ChebInt(c, x, k) == IF k > Len(c) THEN 0 ELSE c[k] * ChebT(x, k - 1) + ChebInt(c, x, k + 1)
+EvalInt(basis, c, x) == IF basis = "cheb" THEN ChebInt(c, x, 1) ELSE HornerInt(c, x, 1)
+\* Factorize(n): p = q * B_n + r with B_n = X^n (monomial) or T_n (Chebyshev), r of degree below n, q of degree deg - n;
+\* two polynomials of degree <= 9 that agree on 11 points are equal (the points are small: TLC integers are 32 bits)
+FactorOK(e) ==
+    /\ ~e.err /\ ~e.panic
+    /\ Len(e.r) = e.n /\ Len(e.q) = Len(e.p) - e.n
+    /\ \A x \in -5..5 :
+          EvalInt(e.basis, e.p, x) = EvalInt(e.basis, e.q, x) * (IF e.basis = "cheb" THEN ChebT(x, e.n) ELSE x ^ e.n) + EvalInt(e.basis, e.r, x)
+\* Evaluate at x = x2 / 2: value * 2^deg exactly
+PlainEvalOK(e) ==
+    /\ ~e.err /\ ~e.panic /\ e.imzero
+    /\ e.num = (IF e.basis = "cheb" THEN ChebNum(e.p, e.x2) ELSE MonoNum(e.p, e.x2))
+\* EvaluateModP: the representative of p(x) in [0, P - 1]
+EvalModPOK(e) == ~e.err /\ ~e.panic /\ e.out = EvalMod(e.p, e.x, e.P)
 =============================================================================
